@@ -173,9 +173,15 @@ def main(argv):
             run.violation("impl", "the set of reported error codes depends on the declaration order: %s vs %s" % (c1, c2),
                           {"pdl": t2, "original": text, "signature": {"class": "ill-perm", "a": c1, "b": c2}})
     # -- groups as inlined
-    for k in range(2 * n + max(3, n // 2)):
-        ga, gb = GG.gen(rng) if k < n else (GG.gen_shared(rng, force={n: "plain-first", n + 1: "plain-last"}.get(k)) if k < 2 * n
-                                            else GG.gen_shared_payload(rng))
+    n_pay = max(3, n // 2)
+    drng = random.Random(a.seed * 4099 + 9)
+    for k in range(2 * n + n_pay + max(4, n // 2)):
+        if k >= 2 * n + n_pay:
+            # different groups in different declarations, own PRNG stream
+            ga, gb = GG.gen_distinct_users(drng)
+        else:
+            ga, gb = GG.gen(rng) if k < n else (GG.gen_shared(rng, force={n: "plain-first", n + 1: "plain-last"}.get(k)) if k < 2 * n
+                                                else GG.gen_shared_payload(rng))
         ra, rb = analyze(ga), analyze(gb)
         run.case((ga, "group"))
         run.hist("variants", "group-vs-inlined")
